@@ -1,6 +1,8 @@
 import Driver.Text
 import IppModel
 import IppModel.Spec.Requests
+import IppModel.Model.Stream
+import IppModel.Model.Json
 namespace Ipp.Ops2
 open Ipp Ipp.Gen Ipp.Text
 
@@ -49,6 +51,22 @@ def opKindOf : String → Option OpKind
 
 def showReq (r : Request) : String := s!"{showMsg r.header r.groups} payload={bytesToHex r.payload}"
 
+def utf8Enc (cp : Nat) : Bytes :=
+  if cp < 0x80 then [UInt8.ofNat cp]
+  else if cp < 0x800 then [UInt8.ofNat (0xC0 + cp / 64), UInt8.ofNat (0x80 + cp % 64)]
+  else if cp < 0x10000 then [UInt8.ofNat (0xE0 + cp / 4096), UInt8.ofNat (0x80 + cp / 64 % 64), UInt8.ofNat (0x80 + cp % 64)]
+  else [UInt8.ofNat (0xF0 + cp / 262144), UInt8.ofNat (0x80 + cp / 4096 % 64), UInt8.ofNat (0x80 + cp / 64 % 64), UInt8.ofNat (0x80 + cp % 64)]
+
+partial def showJson : Json → String
+  | .num n => s!"(n {n})"
+  | .bool b => s!"(b {if b then 1 else 0})"
+  | .str s => s!"(s {bytesToHex s})"
+  | .chr cp => s!"(s {bytesToHex (utf8Enc cp)})"
+  | .arr l => "(a" ++ String.join (l.map fun j => " " ++ showJson j) ++ ")"
+  | .obj kvs =>
+    let sorted := kvs.toArray.qsort (fun a b => blt a.1 b.1)
+    "(o" ++ String.join (sorted.toList.map fun (k, v) => s!" ({bytesToHex k} {showJson v})") ++ ")"
+
 def dispatch2 (op : String) (args : List SExp) : Option String :=
   match op, args with
   | "add_seq", (m :: ops) =>
@@ -62,9 +80,27 @@ def dispatch2 (op : String) (args : List SExp) : Option String :=
              | some t, some n, some v => some (addAttr t n v g)
              | _, _, _ => none)
           | _, _ => none
-        (match ops.foldl step (some start) with
-         | some g => s!"{showMsg h g}{groupsOfText g}"
-         | none => "(bad-arg)")
+        -- specification of the container (C19), computed without folding `add`: every existing group that is the
+        -- first of its kind receives, in order, the additions made to that kind; kinds that are new are appended
+        -- in order of first use, each holding its additions
+        let parsed : Option (List (DelimiterTag × Bytes × Value)) := ops.mapM fun (o : SExp) => match o with
+          | SExp.list [SExp.atom "op", SExp.atom t, SExp.atom n, v] =>
+            (match (hexToNat t).bind DelimiterTag.fromCode, hexToBytes n, readValue v with
+             | some t, some n, some v => some (t, n, v)
+             | _, _, _ => none)
+          | _ => none
+        let spec : Option (List Group) := parsed.map fun pops =>
+          let forKind (t : DelimiterTag) := (pops.filter fun o => o.1 == t).map fun o => (o.2.1, o.2.2)
+          let idx := List.range start.length
+          let existing := idx.map fun i =>
+            let g := start[i]!
+            let firstOfKind := !((start.take i).any fun x => x.tag == g.tag)
+            if firstOfKind then { g with attrs := sinsertAll (forKind g.tag) g.attrs } else g
+          let newKinds := (pops.map (·.1)).foldl (fun acc t => if acc.contains t || start.any (fun x => x.tag == t) then acc else acc ++ [t]) []
+          existing ++ newKinds.map fun t => ⟨t, sinsertAll (forKind t) []⟩
+        (match ops.foldl step (some start), spec with
+         | some g, some sp => s!"{showMsg h g}{groupsOfText g} ## {showMsg h sp}{groupsOfText sp}"
+         | _, _ => "(bad-arg)")
      | none => "(bad-arg)")
   | "iter", [v] =>
     some (match readValue v with
@@ -134,6 +170,29 @@ def dispatch2 (op : String) (args : List SExp) : Option String :=
            | none => some "(bad-arg)")
         | none => some "(bad-arg)")
      | _ => some "(bad-arg)")
+  | "stream", [.atom kind, .atom cons, m, .list (.atom "pay" :: evs), .list (.atom "sizes" :: sizes)] =>
+    some (match readMsg m, evs.mapM readEv, sizes.mapM (fun (a : SExp) => match a with | SExp.atom x => x.toNat? | _ => none) with
+     | some (h, gs), some src, some ns =>
+        let hdr := encodeMsg h gs
+        let pay : Option Payload := if kind == "none" then some .empty else if kind == "sync" then some (.sync src)
+                   else if kind == "async" then some (.async src) else none
+        let c : Option Consumer := if cons == "read" then some .blocking else if cons == "aread" then some .async else none
+        (match pay, c with
+         | some pay, some c =>
+           let (bs, e) := drain c 4096 (drainFuel hdr pay ns) ns ⟨hdr, false, pay⟩
+           s!"{bytesToHex bs} {match e with | none => "end" | some k => "err " ++ ioKindName k}"
+         | _, _ => "(bad-arg)")
+     | _, _, _ => "(bad-arg)")
+  | "json", [m] =>
+    some (match readMsg m with
+     | some (h, gs) =>
+        let canon : List Group := gs.map Group.canon
+        let j := msgToJson h canon
+        let back := match jsonToMsg j with
+          | some (h', gs') => if showMsg h' gs' == showMsg h canon then "rt=ok" else "rt=DIFF"
+          | none => "rt=NONE"
+        s!"{showJson j} {back}"
+     | none => "(bad-arg)")
   | "thm10", [.atom k, .atom _, .atom j, .atom p, .list (.atom "calls" :: calls), c] =>
     some (match opKindOf k, hexToNat j, hexToBytes p, calls.mapM readCall, readComponents c with
      | some k, some j, some p, some calls, some u =>
@@ -147,13 +206,21 @@ def dispatch2 (op : String) (args : List SExp) : Option String :=
      | _, _, _ => "(bad-arg)")
   | "build", [.atom "new_request", .atom u, .atom v, .atom o, c] =>
     some (match hexToNat v, (hexToNat o).bind Operation.fromCode, readComponents c with
-     | some v, some op, some comps => showReq (newRequest (UInt16.ofNat v) op (if u == "~" then none else some comps))
+     | some v, some op, some comps =>
+        let uri := if u == "~" then none else some comps
+        let specGroups : List Group := [⟨.OperationAttributes, sinsertAll
+          ([(Spec.N.attributes_charset, Value.str .charset Spec.N.utf8), (Spec.N.attributes_natural_language, Value.str .naturalLanguage Spec.N.en)] ++
+           (match uri with
+            | some x => [(Spec.N.printer_uri, Value.str .uri (renderUri (canonUri x)))]
+            | none => [])) []⟩]
+        s!"{showReq (newRequest (UInt16.ofNat v) op uri)} ## {showMsg ⟨UInt16.ofNat v, UInt16.ofNat op.code, 1⟩ specGroups} payload=-"
      | _, _, _ => "(bad-arg)")
   | "build", [.atom k, .atom _, .atom j, .atom p, .list (.atom "calls" :: calls), c] =>
     some (match opKindOf k, hexToNat j, hexToBytes p, calls.mapM readCall, readComponents c with
      | some k, some j, some p, some calls, some u =>
         let payload := if k == .printJob || k == .sendDocument then p else []
-        showReq (buildOp k u (UInt32.ofNat j) payload calls)
+        -- model ## declarative specification of the request the arguments describe (C10 oracle)
+        s!"{showReq (buildOp k u (UInt32.ofNat j) payload calls)} ## {showReq (Spec.request k u (UInt32.ofNat j) p (Spec.summary calls))}"
      | _, _, _, _, _ => "(bad-arg)")
   | _, _ => none
 
